@@ -16,8 +16,8 @@ testing) produces it:
 * `Prog.wf` - the (decidable) well-formedness conditions of the canonical fragment, split into
   the structural part `Prog.wfCore` and the canonical-fragment restriction `Prog.noAdj`;
 * `Node`, `Prog.ofNodes`, `Prog.toNodes` - the same forests as lists of rose-tree nodes;
-* `PTok`, `locate`, `render` - tokens without locations and the renderer that assigns lines and
-  columns;
+* `PTok`, `locate`, `render` - tokens without locations (`nl` = line distance from the START line of
+  the previous token, `col` = blank columns) and the renderer that assigns lines and columns;
 * `treeReport`, `treeReportFlat`, `parentsOf` - the expected report and the nesting, defined on
   the tree WITHOUT token indices.
 -/
@@ -196,9 +196,19 @@ def Prog.allCode (p : Prog Tok) : Bool := p.flat.all Tok.isCode
 
 /-! ## the renderer: tokens without locations -/
 
-/-- a token without location: `nl` = the number of line breaks BEFORE the token (0 = it stays on
-the line of the previous token); `col` = the number of blank columns before it: after a line
-break the token starts in column `1 + col`, otherwise in column `previous column + 1 + col` -/
+/-- a token without location: `nl` = the line on which the token starts MINUS the line on which the
+PREVIOUS token STARTS (0 = it starts on the line on which the previous token starts; for a previous
+token whose text contains no line break this is the number of line breaks between the two tokens);
+`col` = the number of blank columns before it: for `nl ≠ 0` the token starts in column `1 + col`,
+otherwise in column `c + 1 + col` where `c` is the column in which the previous token STARTS (so
+`col + 1` must be at least the width of the previous token: `Prog.Spaced`).
+
+A token whose own text contains line breaks (a block comment or a template literal over several
+lines) is laid out like any other: its START is placed, and the next token must have `nl` at least
+the number of line breaks inside it.  `render` then is what a lexer yields only if the layout is
+consistent with the texts: `Prog.Spaced` (`Model/ProgText.lean`, brace languages: texts WITHOUT
+line breaks) resp. `PyProg.Spaced` (`Model/PyTreeText.lean`: texts may contain line breaks).  The
+token-level theorems (`scan_file (render p) = …`) hold for every `nl` / `col`. -/
 structure PTok where
   kind : Nat
   ty : Nat
